@@ -60,8 +60,8 @@ StepOK ==
   /\ LET A == Range(R.steps[i].A)  B == Range(R.steps[i].B)  U == A \cup B IN
      /\ Flippable(K, U, B)
      /\ (Convex(U, B) \/ PrintT(<<"NOTE", "non-convex flip", l, i>>))
-     /\ Chk("C08.repair flipped a configuration that is not locally non-Delaunay", Violates(U, B))
-     /\ Chk("C08.repair flip size", Cardinality(B) = R.steps[i].k)
+     /\ Chk("MODEL.repair flipped a configuration that is not locally non-Delaunay", Violates(U, B))
+     /\ Chk("MODEL.repair flip size", Cardinality(B) = R.steps[i].k)
      /\ K' = Apply(K, U, B)
   /\ i' = i + 1 /\ UNCHANGED <<l, restarts>>
 
@@ -74,7 +74,7 @@ Restart ==
 Finish ==
   /\ l <= Len(Rec) /\ i = Len(R.steps) + 1
   /\ IF R.kind = "Ok"
-     THEN /\ Chk("C08.recorded flips do not lead to the post-state", K = Cells(R.post))
+     THEN /\ Chk("MODEL.recorded flips do not lead to the post-state", K = Cells(R.post))
           /\ Chk("C08.2-D repair stopped although a repair move was left",
                  R.D # 2 \/ ~\E U \in KSub(1..Len(R.pts), R.D + 2) : \E B \in KSub(U, 2) : Legal(K, U, B) /\ Violates(U, B))
      ELSE Chk("C03.failed repair left a changed triangulation", Cells(R.post) = Cells(R.pre))
